@@ -325,7 +325,7 @@ def run(prop, tier, seed):
     scheck.validate(rep, native, vs)
     for r in parallel(items, make_worker(prop), chunksize=8):
         rep.absorb(r)
-    triage(rep, native, evaluate_native_factory(native), sig_of, natrun=natrun, max_replays_per_sig=2)
+    triage(rep, native, evaluate_native_factory(native), sig_of, natrun=natrun, max_replays_per_sig=2, known_without_confirmation=True)
     cells = {str(c) for c, _ in items}
     missing = cells - set(rep.cells)
     if missing:
